@@ -39,6 +39,12 @@ func (p *Params) Verify(input VerifierInput) error {
 	proof := input.Proof
 	root := input.MerkleRoot
 
+	// uAlpha is a word of the code: everything below (interpolation domain, Reed-Solomon test,
+	// column indices) assumes its length
+	if len(proof.UAlpha) != p.SizeCodeWord() {
+		return errors.New("invalid proof: uAlpha does not have the size of a codeword")
+	}
+
 	// This checks the consistency between uAlpha and the claimed value
 	uAlphaAtX, err := EvalFextPolyLagrange(input.Proof.UAlpha, input.EvaluationPoint)
 	claimsAtAlpha := EvalFextPolyHorner(input.ClaimedValues, input.Alpha)
